@@ -31,6 +31,12 @@ def fixed_param(rng, kind, p, percol=None):
         var = np.exp(rng.uniform(np.log(1e-2), np.log(1e2), size=k)).round(5)
         return {"tuple": [ND(mean), ND(var)]}, (mean, var)
     if kind == "GaussianCovCost":
+        if rng.random() < 0.3:
+            # the documented scalar shorthand c for the covariance c * I (with a scalar or array mean)
+            c = float(np.exp(rng.uniform(np.log(0.2), np.log(5.0))).round(4))
+            ms = ND(mean) if rng.random() < 0.5 else float(mean[0])
+            mplain = mean if len(mean) == p else np.full(p, float(mean[0]))
+            return {"tuple": [ms, c]}, (mplain, c * np.eye(p))
         A = rng.standard_normal((p, p))
         Q, _ = np.linalg.qr(A)
         lam = np.exp(rng.uniform(np.log(1e-1), np.log(1e1), size=p))
